@@ -422,7 +422,7 @@ func build(tier string) ([]runner.Instance, time.Duration) {
 }
 
 func main() {
-	runner.Main(runner.Options{Property: "C03", Level: "fault_enumeration", Build: build,
+	runner.Main(runner.Options{Property: "C03", Level: "fault_enumeration", Build: build, RacePoints: true,
 		Rule:   "fault matrix: construct {ProcessParallel, ParallelForEach, Worker, Map, GenerateParallel} x 2^3 continue/include flags x ExcludedErrors x collector x workers x every fault position (and pairs) x 10 failure kinds; each cell explored under every schedule up to the deviation bound; evaluations = executions; distinct_nontrivial = distinct visible-step sequences with real contention",
 		Assume: []string{"model of sync/context/channels in verif/vs (DESIGN §2.2)", "reporting of ErrCurrentOpAbort is not constrained by the statement and not asserted", "n = workers + 2 items"}})
 }
